@@ -25,9 +25,13 @@ def nontrivial(e):
 
 
 def MC_RUNS(quick):
-    runs = [("MCSqrtMod", "MCSqrtMod", "model/SqrtMod (p = 3 mod 4 shortcut, Tonelli-Shanks, F_p2 by the norm) against "
-                                       "enumeration: every a in F_p for 61 odd primes up to 12289 (2-adic valuations of "
-                                       "p - 1 from 1 to 12), every element of F_p2 for p <= 47", False),
+    sq = ("MCSqrtMod", "MCSqrtMod_small", "model/SqrtMod (p = 3 mod 4 shortcut, Tonelli-Shanks, F_p2 by the norm) against "
+          "enumeration: every a in F_p for 58 odd primes up to 769 (2-adic valuations of p - 1 from 1 to 8), every "
+          "element of F_p2 for p <= 23", False) if quick else \
+         ("MCSqrtMod", "MCSqrtMod", "model/SqrtMod (p = 3 mod 4 shortcut, Tonelli-Shanks, F_p2 by the norm) against "
+          "enumeration: every a in F_p for 61 odd primes up to 12289 (2-adic valuations of p - 1 from 1 to 12), every "
+          "element of F_p2 for p <= 47", False)
+    runs = [sq,
             ("HashToCurve", "HashToCurve", "TMPL_MAP_SSWU / TMPL_MAP_SVDW / TMPL_MAP_ISOGENY_MAP + sign fix as coded vs "
                                            "RFC 9380 6.6.2 / 6.6.1 / rational maps: every nonsingular curve over F_7, F_11, "
                                            "F_13 (one state each), every admissible Z, every u, Velu 2-isogenies from "
